@@ -289,6 +289,9 @@ theorem WFKey_consts : WFKey OGen.hdrObject ∧ WFKey OGen.hdrType ∧ WFKey OGe
     WFKey OGen.hdrEncoding ∧ WFKey OGen.hdrMergetag ∧ WFKey OGen.hdrGpgsig := by decide
 
 /-- **Tag round trip**: `Tag._deserialize (Tag._serialize t) = t` on any previous attribute values. -/
+theorem resetTag_eq (prev : Tag) :
+    resetTag prev = { prev with tagger := none, tagTime := none, tagTz := none, tagNeg := some false } := rfl
+
 theorem tag_roundtrip_lemma (prev t : Tag) (h : WFTag t) :
     ∃ bs, serializeTag t = .ok bs ∧ deserializeTag prev bs = .ok t := by
   obtain ⟨osha, oty, nm, tagger, ttime, ttz, tneg, msg, sig⟩ := t
@@ -314,7 +317,7 @@ theorem tag_roundtrip_lemma (prev t : Tag) (h : WFTag t) :
         intro kv hkv
         simp only [List.mem_cons, List.not_mem_nil, or_false] at hkv
         rcases hkv with rfl | rfl | rfl <;> assumption
-      simp only [deserializeTag, parseMessageP_format _ _ wf, Option.getD_some, foldFields, tagField, n1, n2, n3,
+      simp only [deserializeTag, resetTag_eq, parseMessageP_format _ _ wf, Option.getD_some, foldFields, tagField, n1, n2, n3,
         if_true, if_false, hnum]
       rw [tagSetBody_wf _ m sig hbody]
   | some p =>
@@ -333,7 +336,7 @@ theorem tag_roundtrip_lemma (prev t : Tag) (h : WFTag t) :
         intro kv hkv
         simp only [List.mem_cons, List.not_mem_nil, or_false] at hkv
         rcases hkv with rfl | rfl | rfl | rfl <;> assumption
-      simp only [deserializeTag, parseMessageP_format _ _ wf, Option.getD_some, foldFields, tagField, n1, n2, n3,
+      simp only [deserializeTag, resetTag_eq, parseMessageP_format _ _ wf, Option.getD_some, foldFields, tagField, n1, n2, n3,
         n4, n5, n6, if_true, if_false, hnum, hv2]
       rw [tagSetBody_wf _ m sig hbody]
 
